@@ -532,7 +532,13 @@ static void run_until (uint64_t end_us)
     server_pump ();
     total_dispatches += iterate_ready ();
     to = glib_timeout ();
-    if (to == 0) { if (++guard > 200000) { printf ("ev spin-detected\n"); break; } continue; }
+    if (to == 0) {
+      /* with a zero dispatch cost (net tickcost 0) a timer re-armed with a sub-millisecond remainder would fire
+       * for ever at a frozen instant: let the instant pass */
+      if (tick_cost_us == 0 && ++guard > 3) { verif_now_us += 1000; guard = 0; continue; }
+      if (++guard > 200000) { printf ("ev spin-detected\n"); break; }
+      continue;
+    }
     next = end_us;
     if (to > 0 && verif_now_us + (uint64_t) to * 1000 < next) next = verif_now_us + (uint64_t) to * 1000;
     if (netq && netq->due_us < next) next = netq->due_us > verif_now_us ? netq->due_us : verif_now_us;
@@ -595,8 +601,10 @@ static void srv_reply (Server *s, Dgram *g, char b)
   if (stun_message_get_class (&req) != STUN_REQUEST) return;  /* indications ignored */
   s->nreq++;
   if (b == 'a') b = authed ? 's' : 'u';
-  printf ("ev t=%llu server %s:%u req method=%d behaviour=%c authed=%d\n", (unsigned long long) now_ms (),
+  printf ("ev t=%llu server %s:%u req method=%d behaviour=%c authed=%d txid=", (unsigned long long) now_ms (),
       inet_ntoa (s->addr.sin_addr), ntohs (s->addr.sin_port), stun_message_get_method (&req), b, authed);
+  { StunTransactionId rid; stun_message_id (&req, rid); print_hex (rid, 16); }
+  printf (" from=%s:%u\n", inet_ntoa (g->from.sin_addr), ntohs (g->from.sin_port));
   if (b == 'd') return;
   if (b == 'g') { uint8_t junk[40]; int i; for (i = 0; i < 40; i++) junk[i] = rng_next (); enqueue (&s->addr, &g->from, junk, 40, due); return; }
   if (b == 'l') due += 700000;
